@@ -21,6 +21,8 @@ from harness import alias_run
 
 FM_MODEL = {"slope", "focal_mean", "hotspots", "trim", "crop", "perlin", "viewshed", "zonal_apply", "zonal_stats",
             "focal_stats"}
+FM_SESSION_QUICK = {"slope", "aspect", "hillshade", "binary", "quantile", "convolution_2d", "focal_mean", "hotspots", "ndvi",
+                    "allocation", "regions", "trim", "crop", "perlin", "zonal_apply", "zonal_stats", "true_color", "viewshed"}
 FM_SESSION = {"slope", "aspect", "curvature", "hillshade", "binary", "quantile", "equal_interval", "convolution_2d",
               "focal_mean", "focal_apply", "hotspots", "ndvi", "savi", "arvi", "proximity", "allocation", "regions",
               "trim", "crop", "perlin", "generate_terrain", "zonal_apply", "zonal_stats", "zonal_crosstab",
@@ -115,8 +117,21 @@ def job_cost(j):
     return sum(COST.get(c["f"], 0.6) + (1.0 if c["f"] == "viewshed" else 0.0) for c in j["calls"]) + 0.05
 
 
+_MODS = {}
+
+
 def job_affinity(j):
-    return "viewshed" if any(c["f"] == "viewshed" for c in j["calls"]) else None
+    """one warm worker per module: every single-call job (configuration / variant) of the functions of one module goes to
+    the same process, so a (dtype, layout) specialisation of a shared helper is JIT-compiled once; sessions float, except
+    that anything touching viewshed joins viewshed's process (22 s first-call JIT)."""
+    if any(c["f"] == "viewshed" for c in j["calls"]):
+        return "viewshed"
+    if j.get("tag") in ("config", "variant"):
+        if not _MODS:
+            from harness import alias_api
+            _MODS.update({k: v["mod"] for k, v in alias_api.catalog_meta().items()})
+        return _MODS[j["calls"][0]["f"]]
+    return None
 
 
 def run_sessions(jobs, nproc=16):
@@ -185,8 +200,10 @@ def session_jobs(ctx, n, maxcalls, rng, sid0, pipelines=False):
         cst["Pipelines"] = core.Raw("{" + ", ".join("<<" + ", ".join('"%s"' % f for f in p) + ">>" for p in PIPELINES) + "}")
         files = ctx.simulate("Session", dict(spec="SSpec", constants=cst), "pipelines", num=n, depth=7)
     else:
+        quick = ctx.tier != "thorough"
         files = ctx.simulate("Aliasing", dict(spec="Spec", constants=mc_constants(
-            dt={"int8", "int32", "uint16", "float32", "float64"}, maxcalls=maxcalls, fm=FM_SESSION)),
+            dt={"int32", "float32", "float64"} if quick else {"int8", "int32", "uint16", "float32", "float64"},
+            maxcalls=maxcalls, fm=FM_SESSION_QUICK if quick else FM_SESSION)),
             "sessions", num=n, depth=2 * maxcalls + 1)
     meta = None
     jobs = []
@@ -300,7 +317,7 @@ def replay_part(ctx, rng, focus):
     jobs = config_jobs(sel)
     ncfg = len(jobs)
     # other parameter variants of every function (quick: float64/C; thorough: four configurations)
-    vsel = (("float64", "C"),) if ctx.tier != "thorough" else (("float32", "C"), ("float64", "F"), ("int16", "strided"), ("float64", "C"))
+    vsel = (("float64", "strided"),) if ctx.tier != "thorough" else (("float32", "C"), ("float64", "F"), ("int16", "strided"), ("float64", "C"))
     for c in allcfgs:
         if (c["dtype"], c["layout"]) in vsel and c["supported"]:
             if ctx.tier != "thorough" and c["backend"] != "numpy":
@@ -315,8 +332,8 @@ def replay_part(ctx, rng, focus):
                      "backend": c["backend"]}]})
     nvar = len(jobs) - ncfg
     # ---------------------------------------------------------------- T: call sequences generated by TLC
-    sjobs = session_jobs(ctx, ctx.pick(20, 400), ctx.pick(4, 6), rng, len(jobs))
-    sjobs += session_jobs(ctx, ctx.pick(16, 200), 3, rng, len(jobs) + len(sjobs), pipelines=True)
+    sjobs = session_jobs(ctx, ctx.pick(16, 400), ctx.pick(4, 6), rng, len(jobs))
+    sjobs += session_jobs(ctx, ctx.pick(12, 200), 3, rng, len(jobs) + len(sjobs), pipelines=True)
     if focus:
         sjobs = [j for j in sjobs if any(c["f"] in focus for c in j["calls"])][:12]
     jobs += sjobs
